@@ -334,6 +334,12 @@ func ZZ_C10_roundtrip() {
 			n2 := node.DeepCopy()
 			delete(n2.Annotations, zzAnnPrefix+"agent")
 			nondet.Assert("C10.perturb.annotation-removed", !compareCurrentPodWithNewPod(params, pod, NewNodeItem(n2, setting)))
+			// ... also when the override was the node's only annotation (nil or empty map afterwards)
+			n3 := node.DeepCopy()
+			n3.Annotations = nil
+			nondet.Assert("C10.perturb.annotation-removed-node-without-annotations", !compareCurrentPodWithNewPod(params, pod, NewNodeItem(n3, setting)))
+			n3.Annotations = map[string]string{}
+			nondet.Assert("C10.perturb.annotation-removed-node-without-annotations", !compareCurrentPodWithNewPod(params, pod, NewNodeItem(n3, setting)))
 		}
 	default:
 		// the setting now demands another value for a container of the pod that no annotation overrides
